@@ -195,7 +195,14 @@ impl Constants {
                         result.set_scalar(scalar.clone(), Constant::Top);
                     }
                 }
-                None => result.set_scalar(scalar.clone(), constant.clone()),
+                // A scalar which is not known on one path holds whatever value
+                // it had on entry there, not the constant of the other path.
+                None => result.set_scalar(scalar.clone(), Constant::Top),
+            }
+        }
+        for scalar in self.constants.keys() {
+            if !other.constants.contains_key(scalar) {
+                result.set_scalar(scalar.clone(), Constant::Top);
             }
         }
         result
